@@ -39,12 +39,12 @@
    ROUND 4b: C12_never_stuck  FULL (hash scheme, with callback): no deadlock.
    NOT PROVED: a bound on the number of deliveries (termination proper: reaching
      Pending() = 0 stays a hypothesis of C12_sync_complete; Commit succeeding is
-     C12_commit_succeeds), the converse inclusion
-     RN ⊆ nodes_of (exactness in terms of nodes_of; nodes_of ⊆ RN is C12_sync_complete_nodes_of)
-     and the multi-trie (account + storage) version of the nodes_of bridge,
-     a quantitative sync_progress measure, and completeness in the PATH scheme (needs
+     C12_commit_succeeds), the multi-trie (account + storage) version of the nodes_of bridge,
+     a quantitative sync_progress measure, and completeness in the PATH scheme over a
+     destination with STALE nodes (C12_sync_complete_path_partial covers destinations
+     without stale nodes) (needs
      the prefix argument that deletions never hit a completed subtree). *)
-From GV Require Import Trie.Node Trie.Hash Storage.KV Trie.Sync Trie.SyncProofs Trie.SyncInv Trie.SyncComplete Trie.SyncQueue Trie.SyncCallback Trie.SyncLive Trie.SyncPath Trie.ProofProofs Trie.GenerateNodes Trie.SyncNodesOf.
+From GV Require Import Trie.Node Trie.Hash Storage.KV Trie.Sync Trie.SyncProofs Trie.SyncInv Trie.SyncComplete Trie.SyncQueue Trie.SyncCallback Trie.SyncLive Trie.SyncPath Trie.ProofProofs Trie.GenerateNodes Trie.SyncNodesOf Trie.SyncPathComplete.
 
 (* the delivery composition (hash check, then ProcessNode) rejects a blob whose hash
    differs from the requested one and changes nothing *)
@@ -276,6 +276,28 @@ Theorem C12_deps_exact :
 Proof. exact deps_exact. Qed.
 Print Assumptions C12_deps_exact.
 
+(* ... and conversely (RN_in_nodes_of: every target node is in nodes_of): whatever a
+   finished sync of one trie ADDED to the store is (H e, e) for a node (q, e) of
+   nodes_of H [] t - the store is the initial content plus exactly the canonical node set *)
+Theorem C12_sync_exact_nodes_of :
+  forall (H : list N -> list N), (forall x, length (H x) = 32%nat) ->
+  forall (T CD : list N -> option (list N)) (db0 : kv) (t : node) (et : list N) (ops : list op) (s' : sync),
+    pwf t -> node_enc H t = Some et -> H et <> empty_root H ->
+    (forall q e, In (q, e) (nodes_of H [] t) -> T (H e) = Some e) ->
+    (forall p h cb, RN H T (H et) CbNone p h cb -> h <> zero32) ->
+    (forall p h cb, RN H T (H et) CbNone p h cb -> length h = 32%nat) ->
+    (forall k v, get k db0 = Some v ->
+       (forall b, RNh H T (H et) CbNone k -> T k = Some b -> v = b) /\
+       (forall h c, k = code_key h -> RC H T (H et) CbNone h -> CD h = Some c -> v = c)) ->
+    closedA H T (H et) CbNone db0 ->
+    let s0 := unsum (new_sync H false db0 (H et) CbNone) in
+    run_wf4 H T CD s0 ops ->
+    pending (run H s0 ops) = O -> commit (run H s0 ops) = Some s' ->
+    forall k v, get k (sc_db s') = Some v ->
+      get k db0 = Some v \/ exists q, In (q, v) (nodes_of H [] t) /\ k = H v.
+Proof. exact sync_exact_nodes_of. Qed.
+Print Assumptions C12_sync_exact_nodes_of.
+
 (* Commit never fails on a reachable state (hash scheme, same hypotheses as
    C12_sync_complete): the hypothesis "commit = Some s'" of C12_sync_complete is always met *)
 Theorem C12_commit_succeeds :
@@ -316,6 +338,68 @@ Theorem C12_sync_sound_any_scheme :
       nsP_ok H T root cb0 ns /\ csP_ok H T root cb0 cs.
 Proof. exact sync_sound_any_scheme. Qed.
 Print Assumptions C12_sync_sound_any_scheme.
+
+(* COMPLETENESS IN THE PATH SCHEME, with the account callback, all histories of Missing /
+   node deliveries / code deliveries / Commit (run_wf4), availability keyed by
+   (owner, path).  Hypotheses:
+   - the target's paths form a tree of locations: one node per (owner, path) location
+     (LOC: two target nodes resolving to the same location are the same path, hash and
+     kind), and no target node lies strictly inside the key of a target short node over
+     a hash child (NSPAN);
+   - the serving side's database is keyed by hash; no target hash is H "" or 32 zero bytes;
+   - the destination holds NO STALE NODE: every trie node stored in it is a target node
+     at its own location with the target's bytes (it may hold any correct partial copy,
+     closed under children: closedP).
+   Then: NO DELETION IS EVER ISSUED (the inconsistent-node and the dangling-node tests of
+   Sync.children / AddSubTrie never fire), and when Pending() = 0, after Commit every
+   target node is stored at its own (owner, path) key with the serving side's bytes, every
+   target code under its code key, and every entry of the store is initial content, a
+   target node at its own key, or a target code (composition with
+   C12_sync_sound_any_scheme).
+   This is the part of the path-scheme property "_partial" in the sense of the guide: a
+   destination holding STALE nodes (where the scheduler does issue deletions) is covered
+   by C12_sync_sound_any_scheme (the deletions hit only stale / dangling locations) but
+   completeness is not proved there. *)
+Theorem C12_sync_complete_path_partial :
+  forall (H : list N -> list N) (T CD : list N -> option (list N)) (root : list N) (cb0 : cbkind)
+         (db0 : kv),
+    (forall q h cb q' h' cb' o i, RN H T root cb0 q h cb -> RN H T root cb0 q' h' cb' ->
+       resolve_path q = Some (o, i) -> resolve_path q' = Some (o, i) -> q = q' /\ h = h' /\ cb = cb') ->
+    (forall o p h, dangling_at H T root cb0 o p -> ~ tnode_at H T root cb0 o p h) ->
+    (forall h b, T h = Some b -> H b = h) ->
+    (forall p h cb, RN H T root cb0 p h cb -> h <> H []) ->
+    (forall p h cb, RN H T root cb0 p h cb -> h <> zero32) ->
+    (forall o i v, get (node_key o i) db0 = Some v -> exists h, tnode_at H T root cb0 o i h /\ T h = Some v) ->
+    forall (ops : list op) (s' : sync),
+    closedP H T root cb0 db0 ->
+    let s0 := unsum (new_sync H true db0 root cb0) in
+    run_wf4 H T CD s0 ops ->
+    pending (run H s0 ops) = O ->
+    commit (run H s0 ops) = Some s' ->
+    (forall p h cb, RN H T root cb0 p h cb ->
+       exists o i b, resolve_path p = Some (o, i) /\ get (node_key o i) (sc_db s') = Some b /\ T h = Some b) /\
+    (forall c, RC H T root cb0 c -> has (code_key c) (sc_db s') = true) /\
+    (forall k v, get k (sc_db s') = Some v -> entry_ok H T CD root cb0 db0 true k v) /\
+    (forall o p, ~ In (OpDel o p) (mb_nodes (run H s0 ops))).
+Proof. exact sync_complete_path. Qed.
+Print Assumptions C12_sync_complete_path_partial.
+
+(* non-vacuity of C12_sync_complete_path_partial: the branch with three leaves, toy hash,
+   empty destination, PATH scheme: every hypothesis holds, the history of
+   C12_complete_nonvacuous ends with Pending() = 0 and Commit stores the 4 nodes *)
+Example C12_path_nonvacuous :
+  (forall q h cb q' h' cb' o i, RN toyH ex_T q_root CbNone q h cb -> RN toyH ex_T q_root CbNone q' h' cb' ->
+     resolve_path q = Some (o, i) -> resolve_path q' = Some (o, i) -> q = q' /\ h = h' /\ cb = cb') /\
+  (forall o p h, dangling_at toyH ex_T q_root CbNone o p -> ~ tnode_at toyH ex_T q_root CbNone o p h) /\
+  (forall h b, ex_T h = Some b -> toyH b = h) /\
+  (forall p h cb, RN toyH ex_T q_root CbNone p h cb -> h <> toyH []) /\
+  (forall p h cb, RN toyH ex_T q_root CbNone p h cb -> h <> zero32) /\
+  (forall o i v, get (node_key o i) [] = Some v -> exists h, tnode_at toyH ex_T q_root CbNone o i h /\ ex_T h = Some v) /\
+  closedP toyH ex_T q_root CbNone [] /\
+  run_wf4 toyH ex_T ex_CD ex5_s0 ex4_ops /\
+  pending (run toyH ex5_s0 ex4_ops) = O /\
+  (exists s', commit (run toyH ex5_s0 ex4_ops) = Some s' /\ length (sc_db s') = 4%nat).
+Proof. exact ex5_hyps. Qed.
 
 (* LIVENESS, HASH scheme with the account callback: the scheduler never gets stuck.
    After any history (run_wf5 = run_wf4 + a code passing the hash check is processed
